@@ -25,7 +25,11 @@ RULE = (
     "obj_hist (one multi-slice ObjectDIP or ObjectPixelated, 5-9 steps: public calls that raise and are caught -- pretrain() without optimizer / with a loss callable raising at the k-th call / bad target / "
     "unknown optimizer or loss name, invalid constraint key, mask, model_input, slice_thicknesses, obj_type, optimizer -- and successful pretrain / reset / optimizer step / forward / constraint toggles, "
     ".obj judged after every step), "
-    "insitu (reconstruct() on a simulated scene started from hostile raw object / correlated modes with Adam/SGD learning rates 0.1..100, batches, 1-3 slices, 1-4 modes); "
+    "probe_sib (the sibling probe-model classes sharing real_space_probe / ProbeConstraints: ProbeParametric.from_params -- roi given at construction or at set_initial_probe, defocus or C10, "
+    "astigmatism / C30, learn_aberrations x learn_cutoff -- and ProbeDIP.from_pixelated (identity network) / from_model (1-5 correlated modes), on ROIs with rows < cols, rows > cols and square (4..32 px, "
+    "anisotropic sampling), mean intensities 1e-2..1e8; .probe judged by the total-intensity and orthogonalisation oracles after set_initial_probe, re-initialisation, reset() and optimizer step + reset()); "
+    "tomo also runs the tomography ObjectDIP sibling on the same constraint dict; "
+    "insitu (reconstruct() on a simulated scene started from hostile raw object / correlated modes with Adam/SGD learning rates 0.1..100, batches, 1-3 slices, 1-4 modes; half of the single-mode scenes are preprocessed and run again with a ProbeParametric probe model, judged before the first iteration and after reset()); "
     "non-trivial = the raw tensor violates the constraint before projection (max|obj|>1, |obj|!=1, min V<0, slices differ, modes correlated >= 0.5, weights/intensity differ from requested); "
     "distinct = (kind, type, constraint-dict key, mask kind, slices, modes, precision)"
 )
@@ -35,6 +39,9 @@ ASSUMPTIONS = [
     "events whose raw input is not finite (optimiser diverged) are counted, not judged",
     "with identical_slices only slice equality and amplitude <= 1 are judged (property: slice tying is only claimed to tie slices); smoothing filters are never enabled",
     "with apply_fov_mask the mask is a declared attenuation in [0,1]: amplitude <= 1 everywhere and = 1 where mask = 1 (pure phase); idempotence is judged for binary masks only (the code applies the mask twice)",
+    "ProbeParametric (one mode, no initial_probe attribute) and ProbeDIP are probe models of the package handed to the same forward model: their .probe before any parameter update (and after reset()) is 'the initial probe' "
+    "of the property and is judged on the total diffraction intensity (1e-4, measured 4.5e-7); for ProbeDIP the claim is made only for an identity network fed by an initialised ProbePixelated (from_pixelated); "
+    "the relative-weights clause is judged where weights can be requested (ProbePixelated)",
     "idempotence is an amplitude statement and is judged for complex and pure-phase objects",
     "history cases: a call that is expected to raise is caught by the harness like an interactive caller would; the constraint dictionary read back from the model after the step (not the one requested) decides what is judged; "
     "reads of probe_model.probe with orthogonalize_probe off or center_probe on are not judged (the property is about the orthogonalisation's result; per-mode centring shifts do not keep modes orthogonal)",
@@ -45,6 +52,7 @@ REQUIRED_COUNTERS = [
     "eval:complex_amplitude_above_one", "eval:pure_phase_amplitude_not_one", "eval:potential_negative_under_positivity", "eval:slices_not_identical", "eval:constraint_not_idempotent",
     "eval:modes_not_orthogonal", "eval:mode_intensities_changed", "eval:modes_not_descending", "eval:initial_probe_total_intensity", "eval:initial_probe_weights", "insitu_cases_completed",
     "history_cases_completed:probe", "history_cases_completed:object", "history_errors_caught",
+    "sibling_cases_completed:parametric", "sibling_cases_completed:dip", "insitu_parametric_completed", "tomo_dip_judged",
 ]
 
 TOL32, TOL64 = 2e-5, 1e-12
@@ -53,13 +61,16 @@ TOL32, TOL64 = 2e-5, 1e-12
 def plan(tier, seed):
     q = tier == "quick"
     n = {"insitu": 126 if q else 1120, "dip": 200 if q else 4000, "obj": 3000 if q else 90000, "tomo": 200 if q else 6000, "orth": 1200 if q else 36000, "weights": 600 if q else 18000,
-         "probe_hist": 500 if q else 12000, "obj_hist": 400 if q else 9000}
+         "probe_hist": 500 if q else 12000, "obj_hist": 400 if q else 9000, "probe_sib": 540 if q else 16200}
     rest = []
     for kind in ("obj", "dip", "tomo", "orth", "weights", "probe_hist", "obj_hist"):
         rest += [{"kind": kind, "i": i} for i in range(n[kind])]
     # cheap direct cases first (milliseconds each), the in-situ reconstructions last, spread evenly over the workers (round-robin sharding)
     order = np.random.default_rng([seed, 10, 4242]).permutation(len(rest))
-    return [rest[j] for j in order] + [{"kind": "insitu", "i": i} for i in range(n["insitu"])]
+    # (kinds added later are appended, so that the case index -- and with it the random stream -- of every earlier case stays what it was)
+    head, ins_, sib = [rest[j] for j in order], [{"kind": "insitu", "i": i} for i in range(n["insitu"])], [{"kind": "probe_sib", "i": i} for i in range(n["probe_sib"])]
+    # thorough: the long in-situ cases stay last, so that a soft budget hit under load skips some of them rather than a whole cheap class
+    return head + ins_ + sib if q else head + sib + ins_
 
 
 def _np(x):
@@ -211,8 +222,10 @@ def judge_orth(ctx, inp, out, where, **extra):
         return dict(f, corr=corr, lam=lam, nontrivial=(M > 1 and corr >= 0.5))
 
 
-def judge_weights(ctx, model, probes, where, want_I=None):
-    """initial probe: total diffraction intensity = mean intensity; relative mode weights = requested."""
+def judge_weights(ctx, model, probes, where, want_I=None, weights=True, **extra):
+    """initial probe: total diffraction intensity = mean intensity; relative mode weights = requested.
+
+    model: any probe-model class of the package; classes without requested weights (ProbeParametric: one mode; ProbeDIP) are judged on the total only."""
     import torch
 
     with torch.no_grad():
@@ -223,15 +236,16 @@ def judge_weights(ctx, model, probes, where, want_I=None):
         if p.ndim == 2:
             p = p[None]
         M = p.shape[0]
-        f = dict(where=where, modes=M, precision="single" if probes.dtype == torch.complex64 else "double")
+        f = dict(where=where, modes=M, precision="single" if probes.dtype == torch.complex64 else "double", **extra)
         want_I = float(model.mean_diffraction_intensity) if want_I is None else float(want_I)  # the caller's requested value when known
-        want_w = _np(model.initial_probe_weights).astype(np.float64)
+        want_w = getattr(model, "initial_probe_weights", None) if weights else None
+        want_w = np.ones(1) if want_w is None else _np(want_w).astype(np.float64)
         want_w = want_w / want_w.sum()
         tot = float((np.abs(np.fft.fft2(p, norm="ortho")) ** 2).sum())
         ctx.close(tot / want_I - 1, 1e-4, "initial_probe_total_intensity", lambda: "sum_k sum_m |FFT_ortho(probe_m)|^2 = %.6g, mean diffraction intensity %.6g" % (tot, want_I), **f)
         w = (np.abs(p) ** 2).sum((1, 2))
         w = w / w.sum()
-        if len(want_w) == M:
+        if weights and len(want_w) == M:
             ctx.close(float(np.abs(w / want_w - 1).max()), 1e-4, "initial_probe_weights", lambda: "relative mode intensities %s, requested %s" % (w.tolist(), want_w.tolist()), **f)
         return f
 
@@ -358,6 +372,32 @@ def _run_tomo(spec, idx, ctx):
         if pos:
             mn = float(out.double().min())
             ctx.close(max(0.0, -mn), 0.0, "potential_negative_under_positivity", lambda: "tomography ObjectVoxelwise: min = %.3g with positivity (shrinkage %s)" % (mn, shr), track="tomography", **f)
+    # the sibling class sharing the constraint code: tomography ObjectDIP (.obj = constraints applied to a network output)
+    import torch.nn as nn
+
+    class Vol(nn.Module):
+        def __init__(self, w):
+            super().__init__()
+            self.w = nn.Parameter(w)
+
+        def forward(self, x):
+            return (x * self.w)[:, 0]
+
+    x = torch.tensor(raw).to(torch.float32)
+    try:
+        d = st["tm"].ObjectDIP(model=Vol(torch.ones((1, 1) + shape)), volume_shape=shape, model_input=x[None, None], device="cpu")
+    except Exception as e:  # noqa: BLE001  (constructor form not supported by this version of the class: counted, the voxelwise route above decides)
+        ctx.count("tomo_dip_not_constructed:" + type(e).__name__)
+        d = None
+    if d is not None:
+        d.hard_constraints = {"positivity": pos, "shrinkage": shr if shr > 0 else False}
+        with torch.no_grad():
+            out = d.obj
+        f = dict(where="direct", obj_type="tomography", precision="single", shrinkage=shr > 0, model_kind="dip")
+        if ctx.check(tuple(out.shape) == shape and _finite_t(out), "constrained_object_malformed", "tomography ObjectDIP: %s -> %s" % (shape, tuple(out.shape)), **f) and pos:
+            mn = float(out.double().min())
+            ctx.close(max(0.0, -mn), 0.0, "potential_negative_under_positivity", lambda: "tomography ObjectDIP: min = %.3g with positivity (shrinkage %s)" % (mn, shr), track="tomography", **f)
+        ctx.count("tomo_dip_judged")
     ctx.nontrivial(("tomo", pos, shr > 0), pos and float(raw.min()) < 0)
     ctx.observe(shape=list(shape), positivity=pos, shrinkage=shr)
 
@@ -440,6 +480,147 @@ def _run_weights(spec, idx, ctx):
 
 
 # ------------------------------------------------------------------------------------------------
+# sibling classes: every probe-model class of the package shares real_space_probe / ProbeConstraints, every object-model class its
+# ObjectConstraints; the same oracles on ProbeParametric, ProbeDIP (and tomography ObjectDIP in _run_tomo)
+
+
+def _oriented_roi(rng, lo, hi, orient):
+    """orient 0: rows < cols, 1: rows > cols, 2: square."""
+    a, b = sorted(int(x) for x in rng.integers(lo, hi, size=2))
+    if orient == 2:
+        return a, a
+    if a == b:
+        b = a + int(rng.integers(1, 7))
+    return (a, b) if orient == 0 else (b, a)
+
+
+def _probe_params(rng):
+    E = float(rng.choice([60e3, 80e3, 200e3, 300e3]))
+    params = {"energy": E, "semiangle_cutoff": float(rng.uniform(8, 30)), "defocus": float(rng.uniform(-200, 200))}
+    if rng.random() < 0.5:
+        params["aberration_coefs"] = {"C12": float(rng.uniform(0, 50)), "phi12": float(rng.uniform(0, 3)), "C30": float(rng.uniform(-1e4, 1e4))}
+        if rng.random() < 0.5:
+            params["aberration_coefs"]["C10"] = -params.pop("defocus")  # the other way of giving the defocus
+    return params
+
+
+def _parametric_probe(st, rng, roi, params=None):
+    """ProbeParametric built from microscope parameters; roi known at construction or only at set_initial_probe."""
+    params = _probe_params(rng) if params is None else params
+    kw = dict(learn_aberrations=bool(rng.random() < 0.5), learn_cutoff=bool(rng.random() < 0.5))
+    pre = bool(rng.random() < 0.5)
+    pm = st["pm"].ProbeParametric.from_params(dict(params), roi_shape=tuple(roi) if pre else None, rng=int(rng.integers(1 << 30)), **kw)
+    return pm, dict(params=params, roi_at_construction=pre, **kw)
+
+
+def _judge_parametric(ctx, pm, want_I, where, after):
+    """the probe ProbeParametric hands to the forward model: total diffraction intensity and the (single-mode) constraint postconditions."""
+    torch = ctx.state["torch"]
+    with torch.no_grad():
+        out = pm.probe
+        build = getattr(pm, "_build_probe", None)
+        raw = build() if build is not None else None
+    judge_weights(ctx, pm, out, where=where, want_I=want_I, weights=False, model_kind="ProbeParametric", after=after)
+    if raw is not None and pm.constraints.get("orthogonalize_probe", True) and not pm.constraints.get("center_probe"):
+        judge_orth(ctx, raw.detach(), out.detach(), where=where, model_kind="ProbeParametric", after=after)
+
+
+def _mode_affine(torch, scal):
+    """a 'network' for ProbeDIP: one complex factor per mode (keeps the correlation structure of its input)."""
+    import torch.nn as nn
+
+    class ModeScale(nn.Module):
+        def __init__(self):
+            super().__init__()
+            self.dtype = torch.complex64
+            self.w = nn.Parameter(torch.tensor(np.asarray(scal).reshape(1, -1, 1, 1)).to(torch.complex64))
+
+        def forward(self, x):
+            return x * self.w
+
+    return ModeScale()
+
+
+def _run_probe_sib(spec, idx, ctx):
+    st = ctx.state
+    torch, ins = st["torch"], st["insitu"]
+    pmod = st["pm"]
+    rng = ctx.rng(idx)
+    i = spec["i"]
+    orient = (i // 3) % 3
+    h, w = _oriented_roi(rng, 4, 33, orient)
+    samp = (float(rng.uniform(0.2, 0.5)), float(rng.uniform(0.2, 0.5)))
+    rs = np.array([1.0 / (h * samp[0]), 1.0 / (w * samp[1])])
+    mean_I = float(10.0 ** rng.uniform(-2, 8))
+    kind = ["parametric", "parametric", "dip"][i % 3]
+    obs = {}
+    if kind == "parametric":
+        pm, obs = _parametric_probe(st, rng, (h, w))
+        pm.set_initial_probe((h, w), rs, mean_I)
+        _judge_parametric(ctx, pm, mean_I, "direct_public", "set_initial_probe")
+        steps = []
+        for _ in range(int(rng.integers(0, 4))):
+            op = ["reinit", "step_reset", "reset"][int(rng.integers(3))]
+            if op == "reinit":
+                # the same model initialised again for data with another mean intensity
+                mean_I = float(mean_I * 10.0 ** rng.uniform(-2, 2))
+                pm.set_initial_probe((h, w), rs, mean_I)
+            elif op == "step_reset" and len(pm.params) > 0:
+                pm.set_optimizer({"type": "sgd", "lr": float(10.0 ** rng.uniform(-6, -3))})
+                pm.zero_optimizer_grad()
+                tgt = torch.tensor((rng.normal(size=(1, h, w)) + 1j * rng.normal(size=(1, h, w))).astype(np.complex64))
+                loss = (pm.probe - tgt).abs().square().sum()
+                loss.backward()
+                pm.step_optimizer()
+                pm.reset()  # back to the initial parameters: the initial probe again
+            else:
+                pm.reset()
+            steps.append(op)
+            _judge_parametric(ctx, pm, mean_I, "direct_public_history", op)
+        obs["steps"] = steps
+        M = 1
+    else:
+        M = 1 + (i // 9) % 5
+        sub = (i // 45) % 2
+        if sub == 0:
+            # ProbeDIP.from_pixelated (the route of the package's own 'lite' pipeline) with an identity network: the probe handed to the
+            # forward model is the initialised pixelated probe, so it carries the measured mean intensity
+            p = (rng.normal(size=(M, h, w)) + 1j * rng.normal(size=(M, h, w))) * 10.0 ** rng.uniform(-3, 3)
+            if rng.random() < 0.5:
+                pix = pmod.ProbePixelated.from_array(p.astype(np.complex64), rng=int(rng.integers(1 << 30)))
+            else:
+                pix = pmod.ProbePixelated.from_params(_probe_params(rng), num_probes=M, rng=int(rng.integers(1 << 30)))
+                pix.add_constraint("orthogonalize_probe", M == 1)  # (copies of one aperture: outside the orthogonalisation's domain)
+            pix.set_initial_probe((h, w), rs, mean_I)
+            dip = pmod.ProbeDIP.from_pixelated(_mode_affine(torch, np.ones(M)), pix, input_noise_std=float(rng.choice([0.0, 0.025])))
+            dip.set_initial_probe((h, w), rs, mean_I)
+            dip.add_constraint("orthogonalize_probe", bool(pix.constraints["orthogonalize_probe"]))
+            with torch.no_grad():
+                out = dip.probe
+                raw = dip.model(dip.model_input)[0]
+            judge_weights(ctx, dip, out, where="direct_public", want_I=mean_I, weights=False, model_kind="ProbeDIP", after="from_pixelated")
+            if dip.constraints["orthogonalize_probe"]:
+                judge_orth(ctx, raw.detach(), out.detach(), where="direct_public", model_kind="ProbeDIP", after="from_pixelated")
+            obs = {"route": "from_pixelated"}
+        else:
+            # ProbeDIP.from_model: the hard constraints applied to a network output with correlated modes
+            corr = float([0.0, 0.3, 0.5, 0.9, 0.99, 0.7][(i // 90) % 6]) if M > 1 else 0.0
+            x = ins.correlated_modes(rng, M, (h, w), corr, ratios_decades=2.0) * 10.0 ** rng.uniform(-2, 2)
+            scal = np.exp(2j * np.pi * rng.random(M)) * 10.0 ** rng.uniform(-1, 1, size=M)
+            dip = pmod.ProbeDIP.from_model(_mode_affine(torch, scal), model_input=torch.tensor(x.astype(np.complex64))[None], num_probes=M, roi_shape=(h, w),
+                                           input_noise_std=float(rng.choice([0.0, 0.025])), rng=int(rng.integers(1 << 30)))
+            dip.set_initial_probe((h, w), rs, mean_I)
+            with torch.no_grad():
+                out = dip.probe
+                raw = dip.model(dip.model_input)[0]
+            r = judge_orth(ctx, raw.detach(), out.detach(), where="direct_public", model_kind="ProbeDIP", after="from_model")
+            obs = {"route": "from_model", "correlation": corr, "judged": r is not None}
+    ctx.count("sibling_cases_completed:" + kind)
+    ctx.nontrivial(("probe_sib", kind, orient, M, obs.get("route"), obs.get("roi_at_construction")), True)
+    ctx.observe(model=kind, roi=[h, w], mean_intensity=mean_I, **obs)
+
+
+# ------------------------------------------------------------------------------------------------
 # in situ
 
 
@@ -501,12 +682,48 @@ def _run_insitu(spec, idx, ctx):
             st["live"] = L
     finally:
         st["live"] = None
+    if M == 1 and i % 2 == 0:
+        _insitu_parametric(ctx, ctx.rng(idx, 1), sc, pt, mean_I, L, oc, opt, lr_o, lr_p, bs)
     ctx.count("insitu_cases_completed")
     raw = _np(pt.obj_model._obj)
     judged = L.get("obj_events", 0) + L.get("orth_events", 0) + L.get("public_obj", 0)
     ctx.nontrivial(("insitu", ot, ",".join(sorted(oc)), S, M, opt), judged > 0 and (L.get("obj_nontrivial", 0) + L.get("orth_nontrivial", 0)) > 0)
     ctx.observe(scene=sc.describe(), object_constraints=oc, per_slice_mask=mask3d, optimizer=opt, lr=[lr_o, lr_p], batch=bs, autograd=bool(autograd), events={k: v for k, v in L.items() if k != "where"},
                 final_raw_absmax=float(np.abs(raw).max()) if np.isfinite(raw).all() else "non-finite", losses=[float(x) for x in pt.iter_losses[-3:]])
+
+
+def _insitu_parametric(ctx, rng, sc, pt, mean_I, L, oc, opt, lr_o, lr_p, bs):
+    """the same data, object model and detector with the sibling probe model ProbeParametric: the library's own preprocessing sets
+    its intensity from the measured mean; read before the first iteration and after reset(); the object hooks judge the run."""
+    import contextlib
+    import io
+
+    st = ctx.state
+    from quantem.diffractive_imaging.ptychography import Ptychography
+
+    ppm, desc = _parametric_probe(st, rng, tuple(sc.roi), params={"energy": sc.energy, "semiangle_cutoff": sc.semiangle_mrad, "defocus": float(rng.uniform(-100, 100))})
+    st["live"] = L
+    try:
+        with contextlib.redirect_stdout(io.StringIO()):
+            pt2 = Ptychography.from_models(dset=pt.dset, obj_model=pt.obj_model, probe_model=ppm, detector_model=pt.detector_model, device="cpu", verbose=0, rng=int(rng.integers(1 << 30)))
+            pt2.preprocess(obj_padding_px=tuple(int(p) for p in sc.pad_req), com_fit_function="no_shift", force_com_rotation=0, force_com_transpose=False, plot_rotation=False, plot_com=False)
+        st["live"] = None
+        _judge_parametric(ctx, pt2.probe_model, mean_I, "insitu_public", "preprocess")
+        st["live"] = L
+        op = {"object": {"type": opt, "lr": lr_o}}
+        if len(pt2.probe_model.params) > 0:  # (nothing to learn with learn_aberrations = learn_cutoff = False: no probe optimizer then)
+            op["probe"] = {"type": opt, "lr": min(lr_p, 1.0)}
+        pt2.reconstruct(num_iters=2, reset=False, optimizer_params=op, batch_size=bs, autograd=True,
+                        constraints={"object": oc} if oc else {})
+        st["live"] = None
+        om = pt2.obj_model
+        judge_object(ctx, om, om._obj.detach(), om.mask, om.obj, where="insitu_public")
+        pt2.probe_model.reset()
+        _judge_parametric(ctx, pt2.probe_model, mean_I, "insitu_public", "reset")
+    finally:
+        st["live"] = None
+    ctx.count("insitu_parametric_completed")
+    ctx.observe(parametric_probe=desc)
 
 
 def _run_dip(spec, idx, ctx):
@@ -802,7 +1019,7 @@ def _run_obj_hist(spec, idx, ctx):
     ctx.observe(model="ObjectDIP" if dip else "ObjectPixelated", obj_type=ot, shape=[S, H, W], constraints=dict((k, m.constraints[k]) for k in ("identical_slices", "apply_fov_mask")), steps=steps, errors_caught=raised, reads_judged=judged)
 
 
-RUN = {"obj": _run_obj, "dip": _run_dip, "tomo": _run_tomo, "orth": _run_orth, "weights": _run_weights, "insitu": _run_insitu, "probe_hist": _run_probe_hist, "obj_hist": _run_obj_hist}
+RUN = {"probe_sib": _run_probe_sib, "obj": _run_obj, "dip": _run_dip, "tomo": _run_tomo, "orth": _run_orth, "weights": _run_weights, "insitu": _run_insitu, "probe_hist": _run_probe_hist, "obj_hist": _run_obj_hist}
 
 
 def run_case(spec, idx, ctx):
